@@ -30,6 +30,7 @@ def ob_history(ob):
         base = {pi: observe(pi) for pi in probes}
 
     fixed_first = ob.params.get('first')
+    fixed_second = ob.params.get('second')
     PER_PROBE = ('mutate_exports', 'parse_same_under_other_defaults')
     plist = list(probes)
 
@@ -37,7 +38,7 @@ def ob_history(ob):
         save = (pytrs.TRS._USE_CACHE, pytrs.MasterConfig.default_ns, pytrs.MasterConfig.default_ew)
         try:
             for j, o in enumerate(ops):
-                op = fixed_first if (j == 0 and fixed_first is not None) else choose(o, range(len(OPS)))
+                op = fixed_first if (j == 0 and fixed_first is not None) else fixed_second if (j == 1 and fixed_second is not None) else choose(o, range(len(OPS)))
                 if OPS[op] in PER_PROBE:
                     for pi in plist:
                         apply_op(op, pi)
@@ -59,9 +60,12 @@ def ob_history(ob):
     elif nops == 2:
         def target(o0: int, o1: int):
             return run([o0, o1])
-    else:
+    elif nops == 3:
         def target(o0: int, o1: int, o2: int):
             return run([o0, o1, o2])
+    else:
+        def target(o0: int, o1: int, o2: int, o3: int):
+            return run([o0, o1, o2, o3])
     st = explore(target, timeout=ob.params.get('cap', 900), max_viol=1)
     info = dict(bound=f'histories of {nops} prior operations over {len(OPS)} kinds x {len(list(probes))} probes',
                 samples=[{'ops': list(OPS)}])
@@ -73,7 +77,7 @@ def ob_history(ob):
         out = {}
         for v in vs:
             a = v['args']
-            ops = [OPS[fixed_first if (i == 0 and fixed_first is not None) else cl(a[f'o{i}'], len(OPS))] for i in range(nops)]
+            ops = [OPS[fixed_first if (i == 0 and fixed_first is not None) else fixed_second if (i == 1 and fixed_second is not None) else cl(a[f'o{i}'], len(OPS))] for i in range(nops)]
             key = 'history:' + '+'.join(sorted(set(ops)))
             out.setdefault(key, violation(key, f'after prior operations {ops} some probe differs from the same probe with an empty history; {v["exc"]}',
                                           'c15_history', {'ops': ops}))
@@ -93,6 +97,10 @@ def obligations(tier):
                       timeout=3000, params={'nops': 2, 'cap': 2700, 'first': k}))
     if not q:
         from props.c15_ref import N_PROBES
+        for k, name in enumerate(OPS):
+            for k2, name2 in enumerate(OPS):
+                obs.append(Ob(f'history_4_{name}_{name2}', 'S', ob_history, f'four prior operations, the first two being {name}, {name2}', functions=F,
+                              weight=7, timeout=7000, params={'nops': 4, 'cap': 6500, 'first': k, 'second': k2}))
         for k, name in enumerate(OPS):
             obs.append(Ob(f'history_3_{name}', 'S', ob_history, f'three prior operations, the first being {name}', functions=F, weight=9,
                           timeout=7000, params={'nops': 3, 'cap': 6500, 'first': k}))
